@@ -277,6 +277,19 @@ pub fn decorate_role(rng: &mut Rng, r: &mut crate::session::Replica) {
     if rng.pct(12) && r.steps.len() > 1 {
         pre.push_str("migrating-");
     }
+    if rng.pct(12) {
+        pre.push_str("probing-");
+    }
+    if rng.pct(10) && !r.steps.is_empty() {
+        // re-entrant byte source on one delivery
+        let k = rng.below(r.steps.len());
+        let plan = &mut r.steps[k].plan;
+        if plan.slice {
+            *plan = crate::simreader::Plan::whole();
+        }
+        plan.nested_at = Some(rng.below(plan.cuts.len() + 2));
+        pre.push_str("reentrant-");
+    }
     if !pre.is_empty() {
         r.role = format!("{pre}{}", r.role);
     }
@@ -292,6 +305,12 @@ pub fn count_decorations(s: &crate::session::Session, ctr: &mut Ctr) {
         }
         if r.role.contains("migrating") {
             bump(ctr, "fault.replica_migrating_between_threads");
+        }
+        if r.role.contains("probing") {
+            bump(ctr, "fault.replica_probing_each_document_first");
+        }
+        if r.role.contains("reentrant") {
+            bump(ctr, "fault.replica_with_reentrant_byte_source");
         }
         if r.role.contains("parking") {
             bump(ctr, "fault.replica_parked_mid_document_while_next_runs");
